@@ -576,6 +576,21 @@ Fixpoint esc_keys_unique (v : value) : bool :=
   | _ => true
   end.
 
+(* the RFC 3339 text of every date inside v reads back as the same instant,
+   nanoseconds and zone offset (decidable per value) *)
+Definition date_reads_back (s n o : Z) : bool :=
+  match parse_rfc3339 (date_text s n o) with
+  | Some (s', n', off) => (s' =? s) && (n' =? n) && (off =? (if o =? -1 then 0 else o))
+  | None => false
+  end.
+Fixpoint dates_read_back (v : value) : bool :=
+  match v with
+  | VDate s n o => date_reads_back s n o
+  | VArr l => forallb dates_read_back l
+  | VObj m => forallb (fun kv => dates_read_back (snd kv)) m
+  | _ => true
+  end.
+
 Fixpoint strings_valid (v : value) : bool :=
   match v with
   | VStr s => valid_utf8 s
